@@ -32,7 +32,18 @@ Search only (no model: the extracted model counts bytes in unary, and the librar
 * OTHER ENTRY POINTS AND ARGUMENT TYPES — on every file (and every size-boundary data set) the same (read_evlrs, plan) as by path
   through laspy.LasReader(stream, ..) instead of laspy.open, through laspy.open(source, "r", ..), and with the counts of read_points /
   chunk_iterator given as numpy integers (int64, intp) and read_evlrs as a numpy bool; the kind of every failure starts with the name
-  of the variant ("numpy integer arguments (int64): ...")."""
+  of the variant ("numpy integer arguments (int64): ...").
+Both passes:
+* KNOWN RECORD TYPES IN THE OTHER LIST — in every run files (class "relocated") in which a record of a type laspy has a class for sits
+  where it is not usually found: the Extra Bytes record (LASF_Spec / 4) that describes the extra bytes of the points stored as an
+  EVLR instead of a VLR (alone; describing another number of bytes; next to one among the VLRs), two of them adjacent among the VLRs,
+  the classification lookup / WKT / WKT math transform / GeoTIFF (3) / waveform descriptor / laszip records as EVLRs, as VLRs, in both
+  lists, twice in a row; with 0, 1-3, 7 points. Every access path must make the same of them, and what is compared includes the POINT
+  FORMAT written down completely (`format_desc`: id, size, per dimension name / kind / bits / elements / standard or not / description /
+  scales / offsets, the numpy dtype with field offsets) of the header at the three moments, of the result's records and of every chunk
+  handed out. Correspondence: the model reads them as records like any other, and the point format the implementation shows must be the
+  one that follows from what the MODEL read - format id, record size, first Extra Bytes record among the VLRs (`expected_format`:
+  Model/Access.v format_of) - never from the EVLRs or the source."""
 import io
 import math
 import os
@@ -70,6 +81,8 @@ ASSUMPTIONS = [
     "has none), and for files cut inside their point block after a whole number of records (C17_truncated_point_block); other files (EVLRs "
     "announced before the end of the points, ...) are only compared model vs implementation, plus the call-log theorems which hold for "
     "every byte string",
+    "the point format: the model's format_of is (format id, record size, descriptors of the first Extra Bytes record among the VLRs); how "
+    "laspy turns the descriptors into dimensions is laspy's own code (expected_format applies it to what the model read)",
     "memory-map edits: values with as many elements as the map has records (a longer value makes the record grow into a private copy, which "
     "no file can follow); the expected bytes of scaled assignments are those the same assignment gives on an in-memory copy of the file",
 ]
@@ -302,6 +315,28 @@ def hx(b):
     return bytes(b).hex()
 
 
+_FORMATS = {}
+
+
+def format_desc(pf, dtype=None):
+    """a point format as the caller sees it, written down completely: id, record size, and per dimension (standard ones and
+    extra ones alike) name, kind, bits, elements, whether it is a standard one, its description, scales / offsets as bit
+    patterns; then the numpy dtype of the record (field names, types, byte offsets, item size) - the one given (the array of
+    a record), else the one the format makes. (The text is built once per distinct list of dimensions and dtype.)"""
+    dims_ = tuple((d.name, d.kind.name, d.num_bits, d.num_elements, d.is_standard, d.description,
+                   None if d.scales is None else np.asarray(d.scales, dtype=np.float64).tobytes(),
+                   None if d.offsets is None else np.asarray(d.offsets, dtype=np.float64).tobytes()) for d in pf.dimensions)
+    key = (pf.id, dims_, dtype)
+    got = _FORMATS.get(key)
+    if got is None:
+        dt = pf.dtype() if dtype is None else dtype
+        fields = [[nm, str(dt.fields[nm][0]), int(dt.fields[nm][1])] for nm in (dt.names or ())]
+        shown = [[nm, kind, int(nb), int(ne), bool(st), str(ds), None if sc is None else sc.hex(), None if of is None else of.hex()]
+                 for (nm, kind, nb, ne, st, ds, sc, of) in dims_]
+        got = _FORMATS[key] = repr([int(pf.id), int(pf.size), int(pf.num_extra_bytes), list(pf.dimension_names), shown, fields, int(dt.itemsize)])
+    return got
+
+
 def snapshot_header(h):
     """the header part of a snapshot (also what a reader shows before anything is read)"""
     d = lasio.header_assoc(h)
@@ -311,6 +346,8 @@ def snapshot_header(h):
     if h.version.minor < 3:
         hd["start_of_waveform"] = 0
     return {"header": hd, "format": repr(lasio.format_key(h.point_format)), "fmt_id": h.point_format.id,
+            "format_full": format_desc(h.point_format),
+            "vlr_types": [type(v).__name__ for v in h.vlrs], "evlr_types": None if h.evlrs is None else [type(v).__name__ for v in h.evlrs],
             "vlrs": [[hx(u), r, hx(dd), hx(p)] for (u, r, dd, p) in map(lasio.vlr_tuple, h.vlrs)],
             "evlrs": None if h.evlrs is None else [[hx(u), r, hx(dd), hx(p)] for (u, r, dd, p) in map(lasio.vlr_tuple, h.evlrs)]}
 
@@ -324,7 +361,9 @@ def snapshot(las, extra_points=b"", enc=hx):
     out.update({
             "vlrs": [[hx(u), r, hx(dd), hx(p)] for (u, r, dd, p) in map(lasio.vlr_tuple, las.vlrs)],
             "evlrs": None if las.evlrs is None else [[hx(u), r, hx(dd), hx(p)] for (u, r, dd, p) in map(lasio.vlr_tuple, las.evlrs)],
+            "vlr_types": [type(v).__name__ for v in las.vlrs], "evlr_types": None if las.evlrs is None else [type(v).__name__ for v in las.evlrs],
             "points": enc(pts), "count": len(pts) // max(1, h.point_format.size),
+            "record_format": format_desc(las.points.point_format, las.points.array.dtype),
             "pscales": [lasio.f64bits(x) for x in getattr(las.points, "scales", [])] + [lasio.f64bits(x) for x in getattr(las.points, "offsets", [])]})
     return out
 
@@ -462,6 +501,7 @@ def read_through(kind, raw, path, read_evlrs, plan, route="open", enc=hx):
                 cons = snapshot_header(rd.header)
                 cons["evlrs_attr"] = None if rd.evlrs is None else len(rd.evlrs)
                 cons["points"] = enc(b"".join(now))
+                cons["chunk_formats"] = sorted({format_desc(p.point_format, p.array.dtype) for p in kept})
                 cons["count"] = len(b"".join(now)) // max(1, rd.header.point_format.size)
                 out["consumed"] = cons
                 if dbl is not None:
@@ -627,7 +667,162 @@ def make_files(ctx):
         bad = patch_u(patch_u(raw[:off] + ev + raw[off:off + n * ps], 96, 4, off + len(ev)), 235, 8, off)
         if evaluable(bad):
             files.append(dict(f, cls="malformed", raw=bad, label=f["label"].rsplit("/", 1)[0] + "/evlrs_before_points"))
+    # in every run: records of a type laspy knows in the list where they are not usually found (own generator: what was drawn above stays as it was)
+    files += make_relocated(ctx, random.Random(ctx.seed * 104729 + 3))
     return files
+
+
+# ---------------------------------------------------------------------------------
+# records of a type laspy knows, in the list where they are not usually found
+# ---------------------------------------------------------------------------------
+RELOCATED = "relocated"     # class of the files below: well formed, every access path must read them alike
+KNOWN_KINDS = ["classification lookup", "wkt", "wkt math transform", "geo key directory", "geo double params", "geo ascii params",
+               "waveform packet descriptor", "laszip"]
+
+
+def known_record(rng, what):
+    """(user id, record id, description, payload) of a record of a type laspy has a class for (laspy/vlrs/known.py); the payload
+    in the form laspy writes such a record back (what is read is then what was stored)"""
+    low = [c for c in range(97, 123)]
+    desc = lasio.rand_ascii(rng, rng.choice([0, 5, 32]), low).encode()
+    if what == "classification lookup":
+        ids = sorted(rng.sample(range(256), rng.choice([1, 3, 17, 256])))
+        return (b"LASF_Spec", 0, desc, b"".join(bytes([c]) + lasio.rand_ascii(rng, rng.choice([0, 1, 7, 15]), low).encode().ljust(15, b"\0") for c in ids))
+    if what in ("wkt", "wkt math transform"):
+        txt = 'PROJCS["' + lasio.rand_ascii(rng, rng.choice([1, 20, 300]), low) + '",GEOGCS["x",DATUM["d",SPHEROID["s",6378137,298.257]]]]'
+        return (b"LASF_Projection", 2112 if what == "wkt" else 2111, desc, txt.encode() + b"\0")
+    if what == "geo key directory":
+        k = rng.choice([0, 1, 4])
+        body = b"".join(int(rng.choice([1024, 2048, 3072, 34737, rng.randrange(65536)])).to_bytes(2, "little") for _ in range(4 * k))
+        return (b"LASF_Projection", 34735, desc, b"".join(int(v).to_bytes(2, "little") for v in (1, 1, 0, k)) + body)
+    if what == "geo double params":
+        return (b"LASF_Projection", 34736, desc, np.array([rng.uniform(-1e6, 1e6) for _ in range(rng.choice([0, 1, 3]))], dtype="<f8").tobytes())
+    if what == "geo ascii params":
+        return (b"LASF_Projection", 34737, desc, (lasio.rand_ascii(rng, rng.choice([1, 9, 40]), low) + "|" + lasio.rand_ascii(rng, 3, low) + "|").encode() + b"\0")
+    if what == "waveform packet descriptor":
+        return (b"LASF_Spec", 100 + rng.choice([0, 1, 255]), desc,
+                bytes([rng.choice([8, 16]), 0]) + rng.randrange(1, 1000).to_bytes(4, "little") + rng.randrange(1, 5000).to_bytes(4, "little")
+                + np.array([rng.uniform(0.1, 10), rng.uniform(-5, 5)], dtype="<f8").tobytes())
+    if what == "laszip":
+        return (b"laszip encoded", 22204, desc, bytes(rng.randrange(256) for _ in range(rng.choice([34, 52]))))
+    raise ValueError(what)
+
+
+def rec_bytes_of(rec, extended):
+    """the bytes of a VLR (extended: of an EVLR)"""
+    u, r, d, p = rec
+    return b"\0\0" + u.ljust(16, b"\0") + int(r).to_bytes(2, "little") + len(p).to_bytes(8 if extended else 2, "little") + d.ljust(32, b"\0") + p
+
+
+def reassemble(raw, vlrs, evlrs):
+    """the file `raw` (written by laspy: header, VLRs, padding, points[, EVLRs]) with these VLRs and these EVLRs instead of its own:
+    same header fields, same padding after the VLRs, same points; offset_to_point_data, the two record counts and
+    start_of_first_evlr say where things are now"""
+    d = lasio.parse_raw(raw)
+    hs, off = d["header_size"], d["offset"]
+    _, vend = lasio.raw_walk_vlrs(raw, hs, d["nvlrs"], False)
+    points = raw[off:off + d["count"] * d["psize"]]
+    vb = b"".join(rec_bytes_of(v, False) for v in vlrs)
+    new_off = hs + len(vb) + (off - vend)
+    out = patch_u(patch_u(raw[:hs], 96, 4, new_off), 100, 4, len(vlrs)) + vb + raw[vend:off] + points
+    if d["minor"] >= 4:
+        if evlrs:
+            out = patch_u(out, 235, 8, len(out))
+        out = patch_u(out, 243, 4, len(evlrs))
+        out += b"".join(rec_bytes_of(v, True) for v in evlrs)
+    return out
+
+
+def own_records(raw):
+    """(VLRs, EVLRs) of a file written by laspy, as (user id, record id, description, payload) with the padding of the two strings removed"""
+    d = lasio.parse_raw(raw)
+    vl, _ = lasio.raw_walk_vlrs(raw, d["header_size"], d["nvlrs"], False)
+    ev = lasio.raw_walk_vlrs(raw, d["evlr_start"], d["nevlrs"], True)[0] if d["nevlrs"] else []
+    strip = lambda l: [(u.split(b"\0")[0], r, dd.split(b"\0")[0], p) for (u, r, dd, p) in l]
+    return strip(vl), strip(ev)
+
+
+def is_eb(rec):
+    return rec[0] == b"LASF_Spec" and rec[1] == 4
+
+
+def make_relocated(ctx, rng):
+    """well-formed files in which a record of a type laspy knows sits in the list where it is not usually found - the Extra Bytes
+    record (LASF_Spec / 4) that describes the extra bytes of the points stored as an EVLR (LAS 1.4 allows it) instead of a VLR, alone, next
+    to another one among the VLRs, describing fewer bytes than the points carry; two such records adjacent among the VLRs; the
+    classification lookup, WKT, GeoTIFF, waveform descriptor and laszip records as EVLRs, as VLRs, in both lists, twice in a row -
+    with and without points. Whatever laspy makes of such a file, it makes the same of it through every access path: the class is
+    judged like the valid files (and compared with the model, for which these are records like any other)."""
+    import laspy
+    shapes14 = ["eb_evlr", "eb_evlr", "eb_evlr_other_size", "eb_both_lists", "eb_twice_vlr", "known_evlr", "known_vlr", "known_both_lists", "known_twice"]
+    plan = [("1.4", s) for s in shapes14] + [(rng.choice(["1.1", "1.2", "1.3"]), s) for s in ("eb_twice_vlr", "known_vlr")]
+    if ctx.thorough():
+        plan = plan * 3 + [(v, s) for v in ("1.1", "1.2", "1.3") for s in ("eb_twice_vlr", "known_vlr", "known_twice")]
+    out = []
+    counts = [0, rng.choice([1, 2, 3]), 7]
+    for i, (version, shape) in enumerate(plan):
+        fmt = rng.choice(lasio.COMPAT[version])
+        n = counts[i % 3] if shape != "eb_evlr" else [0, rng.choice([1, 2, 7])][i % 2]
+        h = lasio.rand_header(rng, version=version, fmt=fmt, nvlrs=rng.choice([0, 1]))
+        with_eb = shape.startswith("eb") or rng.random() < 0.4
+        if with_eb:
+            while not list(h.point_format.extra_dimensions):
+                lasio.add_extra_dims(rng, h, k=rng.choice([1, 2, 3]))
+        pts = lasio.rand_points(rng, h, n)
+        own_ev = laspy.vlrs.vlrlist.VLRList([lasio.rand_vlr(rng, max_payload=rng.choice([0, 5, 120])) for _ in range(rng.choice([0, 1]))]) if version == "1.4" else None
+        raw = lasio.write_las(h, pts, own_ev)
+        vl, ev = own_records(raw)
+        eb = [v for v in vl if is_eb(v)]
+
+        sizes = {}
+
+        def other_eb():
+            # an Extra Bytes record with other names (and, mostly, another total size), as laspy writes it
+            h2 = lasio.add_extra_dims(rng, laspy.LasHeader(version=version, point_format=fmt), k=rng.choice([1, 2]))
+            rec = [v for v in own_records(lasio.write_las(h2))[0] if is_eb(v)][0]
+            sizes[rec] = h2.point_format.num_extra_bytes
+            return rec
+        whats = rng.sample(KNOWN_KINDS, rng.choice([1, 2, 4, len(KNOWN_KINDS)]))
+        known = [known_record(rng, w) for w in whats]
+        at = lambda l: rng.randrange(len(l) + 1)
+        if shape == "eb_evlr":                  # the description of the extra bytes is among the EVLRs only
+            vl = [v for v in vl if not is_eb(v)]
+            ev.insert(at(ev), eb[0])
+        elif shape == "eb_evlr_other_size":     # ... and does not describe the bytes the points carry
+            vl = [v for v in vl if not is_eb(v)]
+            e2 = eb[0][:3] + (eb[0][3][:-192],) if len(eb[0][3]) > 192 and rng.random() < 0.5 else other_eb()
+            ev.insert(at(ev), e2)
+        elif shape == "eb_both_lists":          # one among the VLRs (used), another one among the EVLRs
+            ev.insert(at(ev), rng.choice([other_eb(), eb[0]]))
+        elif shape == "eb_twice_vlr":           # two adjacent among the VLRs
+            k, e2 = vl.index(eb[0]), other_eb()
+            # before the one laspy wrote only when it describes no more bytes than the points carry (the first one is the one used)
+            vl.insert(k + (rng.choice([0, 1]) if sizes[e2] <= h.point_format.num_extra_bytes else 1), e2)
+        elif shape == "known_evlr":
+            for kr in known:
+                ev.insert(at(ev), kr)
+        elif shape == "known_vlr":
+            for kr in known:
+                vl.insert(at(vl), kr)
+        elif shape == "known_both_lists":
+            for kr in known:
+                vl.insert(at(vl), kr)
+                ev.insert(at(ev), kr if rng.random() < 0.5 else known_record(rng, rng.choice(KNOWN_KINDS)))
+        elif shape == "known_twice":
+            kr = known[0]
+            l = ev if (version == "1.4" and rng.random() < 0.6) else vl
+            k = at(l)
+            l[k:k] = [kr, rng.choice([kr, kr[:3] + (known_record(rng, whats[0])[3],)])]
+        new = reassemble(raw, vl, ev)
+        ps = h.point_format.size
+        tup = lambda l: [[hx(u), r, hx(dd), hx(p)] for (u, r, dd, p) in l]
+        f = {"version": version, "fmt": fmt, "n": n, "nev": len(ev), "ps": ps, "off": int.from_bytes(new[96:100], "little"),
+             "extra_dims": len(list(h.point_format.extra_dimensions)), "cls": RELOCATED, "raw": new, "shape": shape,
+             "label": f"{version}/fmt{fmt}/n{n}/evlrs{len(ev)}/{shape}#{i}",
+             "truth": {"points": hx(lasio.rec_bytes(pts)), "vlrs": len(vl), "evlrs": None if version != "1.4" else tup(ev)}}
+        if evaluable(new):
+            out.append(f)
+    return out
 
 
 def plans_for(ctx, n):
@@ -1161,6 +1356,33 @@ def parse_model(line):
     return out
 
 
+def expected_format(fmt, psize, vlrs):
+    """the point format a header shows, from what the MODEL read: the format id, the record size and the VLRs - the extra dimensions
+    are those described by the first Extra Bytes record (LASF_Spec / 4, a whole number of 192-byte descriptors) among the VLRs,
+    unless the record size leaves no room for extra bytes; bytes that nothing describes are one opaque dimension. Neither the
+    EVLRs nor the source take part. None: not a format laspy can build (the implementation's own outcome stands)"""
+    import laspy
+    from laspy.vlrs.known import ExtraBytesVlr
+    from laspy.point import dims
+    try:
+        pf = laspy.PointFormat(fmt)
+        eb = [p for (u, r, d, p) in vlrs if u.split(b"\0")[0] == b"LASF_Spec" and r == 4 and len(p) % 192 == 0]
+        if eb and psize != pf.size:
+            v = ExtraBytesVlr()
+            v.parse_record_data(eb[0])
+            for prm in v.type_of_extra_dims():
+                pf.add_extra_dimension(prm)
+        if psize > pf.size:
+            k = psize - pf.size
+            pf.dimensions.append(dims.DimensionInfo(name="ExtraBytes", kind=dims.DimensionKind.UnsignedInteger, num_bits=8 * k, num_elements=k,
+                                                    is_standard=False, description="Un-registered ExtraBytes"))
+        elif psize < pf.size:
+            return None
+        return repr(lasio.format_key(pf))
+    except Exception:  # noqa
+        return None
+
+
 def differs(model, impl, points=True):
     """compares a parsed model result with an implementation observation; returns a description or None"""
     if "err" in model or "err" in impl:
@@ -1175,6 +1397,9 @@ def differs(model, impl, points=True):
             return "header." + k, mv, s["header"][k]
     if m["fmt"] != s["fmt_id"]:
         return "format id", m["fmt"], s["fmt_id"]
+    want = expected_format(m["fmt"], m["psize"], m["vlrs"])
+    if want is not None and want != s["format"]:
+        return "point format (extra dimensions: from the VLRs the model read)", want, s["format"]
     mv = [[u.hex(), r, d.hex(), p.hex()] for (u, r, d, p) in m["vlrs"]]
     if mv != s["vlrs"]:
         return "vlrs", len(mv), len(s["vlrs"])
@@ -1276,7 +1501,10 @@ def correspond(ctx):
         "consumption and when everything is read (records kept by the caller and looked at after the last read), through laspy.read, and "
         "through laspy.mmap; every dimension (and x, y, z, xyz) of one file per format is assigned through the map by every route (whole "
         "dimension by attribute / item / record / record array / full slice, element, slice and mask of the view). non-trivial = the file "
-        "has points or EVLRs; distinct by (file label, source kind, read_evlrs, plan). Search only: per run 11 data sets (seeded recipes) "
+        "has points or EVLRs; distinct by (file label, source kind, read_evlrs, plan). In every run 11 (thorough: 36) files in which a record "
+        "of a known type sits in the other list (Extra Bytes record as EVLR / twice / in both lists; classification lookup, WKT, GeoTIFF, "
+        "waveform descriptor, laszip records as EVLRs, VLRs, both, adjacent), 0-7 points; the point format (every dimension, the dtype) is "
+        "part of what is compared. Search only: per run 11 data sets (seeded recipes) "
         "of which one part is just over 8 KiB / 64 KiB / 1 MiB / k * io.DEFAULT_BUFFER_SIZE (point block, header + VLR block, one VLR "
         "payload of up to 65535 bytes, one EVLR payload, the gap between the last point and the first EVLR, 255-300 VLRs or EVLRs) or over 8 MiB (two point blocks per run; 16-64 MiB in "
         "the thorough tier), read in one call and by boundary-crossing chunks through the 13 source kinds, laspy.read and laspy.mmap; and "
@@ -1467,8 +1695,14 @@ def same_read(ref, got):
             return f"outcome: {ref.get('err', 'ok')} by path, {got.get('err', 'ok')} {got.get('msg', '')}"
         return None
     a, b = ref["ok"], got["ok"]
-    for k in ("header", "format", "vlrs", "evlrs", "points", "pscales"):
+    for k in ("header", "format", "format_full", "record_format", "vlrs", "evlrs", "vlr_types", "evlr_types", "points", "pscales"):
         if a[k] != b[k]:
+            if k in ("vlr_types", "evlr_types"):
+                return f"{k[:-6]}s: the records are objects of the classes {b[k]} here, {a[k]} by path (same ids, same bytes)"
+            if k == "format":
+                return f"format: header.point_format (id, extra dimensions) is {b[k][:400]} here, {a[k][:400]} by path"
+            if k in ("format_full", "record_format"):
+                return f"format: {'header.point_format' if k == 'format_full' else 'the point format / dtype of the records'} is {b[k][:400]} here, {a[k][:400]} by path"
             if k == "header":
                 ks = [x for x in HDR_KEYS if a[k][x] != b[k][x]]
                 return f"header fields {ks}"
@@ -1534,9 +1768,12 @@ def judge(raw, cls, kind, e, plan, ref, ref_same, got):
             continue
         a, b = ref_same[stage], got[stage]
         bad = False
-        for k in ("header", "format", "vlrs"):
+        for k in ("header", "format", "format_full", "vlrs", "vlr_types"):
             if a[k] != b[k]:
                 what = [x for x in HDR_KEYS if a[k][x] != b[k][x]] if k == "header" else k
+                if k in ("format", "format_full"):
+                    what = f"header.point_format is {b[k][:300]} here, {a[k][:300]} by path"
+                    k = "format"
                 out.append((f"{title}: {k} differs from the path's: {src}, {cls} file", f"{what}"))
                 bad = True
                 break
@@ -1547,9 +1784,14 @@ def judge(raw, cls, kind, e, plan, ref, ref_same, got):
             out.append((f"{title}: evlrs differ from the path's: {src}, {cls} file, read_evlrs {'not given' if e is None else 'given'}",
                         f"header.evlrs after open(read_evlrs {arg}) and plan {plan_tok(plan)}: {ln(b['evlrs'])} here, {ln(a['evlrs'])} by path"
                         + ("" if want is a["evlrs"] else " (None expected: left for read())")))
+        elif want is not None and b["evlr_types"] != a["evlr_types"]:
+            out.append((f"{title}: evlrs differ from the path's (classes of the records): {src}, {cls} file", f"{b['evlr_types']} here, {a['evlr_types']} by path"))
         if stage == "consumed":
             if b["evlrs_attr"] != ln(b["evlrs"]):
                 out.append((f"{title}: reader.evlrs is not header.evlrs", f"{b['evlrs_attr']} / {ln(b['evlrs'])}"))
+            if a.get("chunk_formats") != b.get("chunk_formats"):
+                out.append((f"{title}: point format of the records handed out differs from the path's: {src}, {cls} file",
+                            f"plan {plan_tok(plan)}: {str(b.get('chunk_formats'))[:300]} here, {str(a.get('chunk_formats'))[:300]} by path"))
             if a["points"] != b["points"]:
                 out.append((f"{title}: records handed out differ from the path's: {src}, {cls} file",
                             f"plan {plan_tok(plan)}: {b['count']} records here, {a['count']} by path (or other bytes)"))
@@ -1612,7 +1854,7 @@ def judge_file(ctx, f, add, add_short):
     sized = "recipe" in f
     full = f["cls"] != "malformed"      # valid, trailing, gap, truncated: the result must not depend on the source
     if full:
-        if "err" in ref and f["cls"] != "truncated":
+        if "err" in ref and f["cls"] not in ("truncated", RELOCATED):    # (a known record in an unusual place may be refused: by every path alike)
             add("a file written by laspy cannot be read by path", file_input(f), ref.get("msg"))
             return
     if full and "ok" in ref:
@@ -1694,7 +1936,7 @@ def judge_file(ctx, f, add, add_short):
                 bad = [t for t in got["log"] if t[0] in "st"] + [a for a in got["asked"] if a in ("seek", "tell")]
                 if bad:
                     add("non-seekable source asked to seek/tell (laspy.read)", file_input(f, kind=kind, route="laspy.read"), f"calls {bad[:6]}")
-    if f["cls"] in ("valid", "trailing", "gap"):
+    if f["cls"] in ("valid", "trailing", "gap", RELOCATED):
         if sized:
             ctx.count("kind:mmap (size boundary)")
             ctx.case((f["label"], "mmap"), nontrivial=True)
